@@ -420,6 +420,11 @@ type e2eNode struct {
 	Dir  bool   `json:"dir"`
 	Size int64  `json:"size"`
 	Kind int    `json:"kind"`
+	// pre-existing destination entries only: Like = i > 0 makes the content the same byte stream as
+	// source node i (1-based) -- a prefix of it when shorter, the source plus a continuation when
+	// longer; DivergeAt > 0 makes it differ from that stream from this offset on
+	Like      int   `json:"like,omitempty"`
+	DivergeAt int64 `json:"diverge_at,omitempty"`
 }
 
 // e2eMakeTree writes the nodes under root (parents are created) and returns the top-level paths
